@@ -505,7 +505,33 @@ inline bool exec(Env& e, const Op& op) {
       s.triVerts = g.triVerts;
       s.tolerance = g.tolerance;
       s.Merge();
+      // the merge vectors themselves are an output of the public API (MeshGL::Merge): make them
+      // part of what is compared across builds and schedules
       e.pushM(Manifold(s));
+      e.note = "merge:" + hex(hv(s.mergeFromVert)) + ":" + hex(hv(s.mergeToVert));
+    }
+  } else if (n == "soup") {
+    // triangle soup (what an STL import looks like): every triangle gets its own three vertices, slightly
+    // jittered; MeshGL::Merge() has to find the clusters again
+    if (needM()) {
+      MeshGL64 g = e.m(A(0)).GetMeshGL64();
+      if (g.triVerts.size() / 3 > 40000) {
+        e.note = "skipped:size";
+      } else {
+        MeshGL64 s;
+        s.numProp = 3;
+        Rng r((uint64_t)A(1) * 131 + 7);
+        const double jit = (A(2) % 3 == 0) ? 0.0 : 1e-7;
+        for (size_t t = 0; t < g.triVerts.size(); t++) {
+          const size_t v = g.triVerts[t];
+          for (int k = 0; k < 3; k++) s.vertProperties.push_back(g.vertProperties[v * g.numProp + k] + (jit > 0 ? r.uni(-jit, jit) : 0.0));
+          s.triVerts.push_back(t);
+        }
+        s.tolerance = 1e-4;
+        s.Merge();
+        e.pushM(Manifold(s));
+        e.note = "merge:" + hex(hv(s.mergeFromVert)) + ":" + hex(hv(s.mergeToVert));
+      }
     }
   } else if (n == "rt32") {
     if (needM()) e.pushM(Manifold(e.m(A(0)).GetMeshGL()));
